@@ -146,4 +146,17 @@ theorem step_error_propagates (regs : List String) (gz : Int × Int) (env : Stri
     assembleSteps regs gz env tbl addr ((mn, fs) :: rest) = .error e := by
   exact assembleSteps_cons_error regs gz env tbl addr mn fs rest mn variants e ht h1
 
+/-- a macro variant without instruction templates expands to nothing: its invocation emits no byte (and, by
+    `macro_reserved_eq_emitted`, reserves none), so whatever follows keeps its address -/
+theorem empty_expansion_emits_nothing (regs : List String) (gz : Int × Int) (env : String → Option Int) (tbl : InstrTable)
+    (addr : Int) : assembleSteps regs gz env tbl addr [] = .ok [] := by
+  simp [assembleSteps]
+/-- … and the selected variant's empty template list is the empty statement list -/
+theorem empty_variant_expands_to_nothing (regs : List String) (gz : Int × Int) (mvs : List MacroVariant) (fs : List Form)
+    (i : Nat) (mv : MacroVariant) (m : Matched) (hs : selectMacro regs gz mvs fs = .ok (i, mv, m)) (he : mv.steps = []) :
+    expandMacro regs gz mvs fs = .ok (i, []) := by
+  unfold expandMacro
+  rw [hs]
+  simp [he]
+
 end BV.C10
